@@ -163,7 +163,11 @@ def numeric_trace(rng, family):
         direct = copy.deepcopy(model)
         direct.state = st
         for p, v in pos.items():
-            direct.vars[p].value = v
+            # a position key names a node first and a variable second
+            if p in direct.nodes:
+                direct.nodes[p].value = v
+            else:
+                direct.vars[p].value = v
         direct.update()
         same = lambda a, b: all(np.array_equal(np.asarray(x), np.asarray(y)) for x, y in zip(  # noqa: E731
             jax.tree_util.tree_leaves(a), jax.tree_util.tree_leaves(b)))
